@@ -28,7 +28,10 @@ ID = "C14"
 LEVEL = "exploration"
 RULE = ("a case = (generated model with pass bait: Identity/Constant nodes, duplicate subexpressions and "
         "initializers, unused nodes/functions/opsets, function calls, subgraph initializers, missing/duplicate "
-        "names, optional trailing outputs) x one built-in pass (all 19) or a Sequential/PassManager composition, "
+        "names, optional trailing outputs, Identity outputs knowing more/less type and shape than their inputs, "
+        "inner scopes whose values share a name with a value of an enclosing graph) x one built-in pass (all 19, "
+        "plain or under functionalize(), analysis passes included) or a Sequential/PassManager composition "
+        "(members and/or the whole composition under functionalize()), "
         "with or without an injected fault at the ONNX boundary; non-trivial = the pass reported modified=True at "
         "least once or a fault was injected; distinct = (pass, hash of serialized model)")
 ASSUMPTIONS = [
@@ -91,6 +94,91 @@ def all_graphs(model):
     return out
 
 
+def nested_graphs_of(g) -> list:
+    """graphs nested at any depth in the nodes of g (g itself excluded)"""
+    out, stack = [], [g]
+    while stack:
+        cur = stack.pop()
+        for n in cur:
+            for a in n.attributes.values():
+                if isinstance(a, ir.Attr) and not a.is_ref():
+                    subs = [a.value] if a.type == ir.AttributeType.GRAPH else (list(a.value) if a.type == ir.AttributeType.GRAPHS else [])
+                    out.extend(subs)
+                    stack.extend(subs)
+    return out
+
+
+def plant_scope(g, vis, gen: gen_ir.IRGen):
+    """A control-flow shaped node at the end of g whose branch graphs define their own values (graph
+    inputs, an initializer, node outputs) and capture values of g: an inner scope below g."""
+    rng = gen.rng
+    with_inputs = rng.random() < 0.3
+
+    def branch():
+        ins = [gen.value()] if with_inputs else []
+        inits = []
+        if rng.random() < 0.3:
+            nm = gen.fresh("bw")
+            inits.append(ir.Value(name=nm, const_value=ir.tensor(np.array([1.0, 2.0], dtype=np.float32), name=nm),
+                                  type=ir.TensorType(ir.DataType.FLOAT), shape=ir.Shape([2])))
+        nodes = []
+        cur = rng.choice(vis + ins + inits)
+        for _ in range(rng.randint(1, 2)):
+            nodes.append(ir.Node("", rng.choice(["Abs", "Neg", "Relu"]), [cur], outputs=[gen.value()]))
+            cur = nodes[-1].outputs[0]
+        return ir.Graph(ins, [cur], nodes=nodes, initializers=inits, name=rng.choice([None, gen.fresh("branch")]))
+
+    if with_inputs:
+        attrs = [ir.AttrGraph("body", branch())]
+        op = "Scan"
+    else:
+        attrs = [ir.AttrGraph("then_branch", branch()), ir.AttrGraph("else_branch", branch())]
+        op = "If"
+    n = ir.Node("", op, [rng.choice(vis)], attrs, outputs=[gen.value()], name=rng.choice([None, gen.fresh("scope")]))
+    g.append(n)
+    gen.features.add("bait:inner_scope")
+    return n
+
+
+def plant_name_clash(g, planted, gen: gen_ir.IRGen) -> int:
+    """Give a value DEFINED in a graph nested below g (input, initializer or node output) the name of a
+    value of g itself (preferring values g returns and values the bait planted): the serialised names
+    collide across scopes, which the IR permits and several passes guard their renames against."""
+    rng = gen.rng
+    victims = []
+    for sg in nested_graphs_of(g):
+        victims += list(sg.inputs) + list(sg.initializers.values()) + [o for n in sg for o in n.outputs if o.name]
+    if not victims:
+        return 0
+    own = [v for v in list(g.inputs) + list(g.initializers.values()) + [o for n in g for o in n.outputs] if v.name]
+    produced_outputs = [v for v in g.outputs if v.name and v.producer() is not None and v.producer().graph is g]
+    planted = [v for v in planted if v.name]
+    planted_outputs = [v for v in produced_outputs if any(v is x for x in planted)]
+    # every returned value the bait planted is a likely target; a few more targets from the other classes
+    targets = [v for v in planted_outputs if rng.random() < 0.6]
+    for _ in range(rng.randint(0, 2)):
+        r = rng.random()
+        pool = produced_outputs if (produced_outputs and r < 0.5) else planted if (planted and r < 0.75) else own
+        if pool:
+            targets.append(rng.choice(pool))
+    rng.shuffle(victims)
+    done = 0
+    for target in targets:
+        if not victims:
+            break
+        victim = victims.pop()
+        if victim is target or victim.name == target.name:
+            continue
+        try:
+            victim.name = target.name
+        except ValueError:
+            continue  # e.g. the nested graph already has an initializer of that name
+        done += 1
+    if done:
+        gen.features.add("bait:cross_scope_name_clash")
+    return done
+
+
 def bait(model: ir.Model, gen: gen_ir.IRGen) -> None:
     """Plant patterns the passes rewrite, through the public API, keeping the model well scoped."""
     rng = gen.rng
@@ -101,16 +189,31 @@ def bait(model: ir.Model, gen: gen_ir.IRGen) -> None:
         vis = list(g.inputs) + list(g.initializers.values()) + [o for n in g for o in n.outputs if o.name]
         if not vis or rng.random() < 0.35:
             continue
+        planted = []
         # Identity chains (also ending in a graph output), duplicate subexpressions, constants
         for _ in range(rng.randint(1, 3)):
             k = rng.random()
             src = rng.choice(vis)
             if k < 0.35:
-                n = ir.Node("", "Identity", [src], outputs=[gen.value()], name=rng.choice([None, gen.fresh("id")]))
+                # information asymmetry between the two ends of the Identity: the output may know a type /
+                # shape / concrete dims that its input lacks (the pass then merges), or the other way round
+                weak = [v for v in vis if v.producer() is not None and (v.type is None or v.shape is None)]
+                produced = [v for v in vis if v.producer() is not None]
+                if weak and rng.random() < 0.4:
+                    src = rng.choice(weak)
+                elif produced and rng.random() < 0.4:
+                    src = rng.choice(produced)
+                out = gen.value(typed=True if rng.random() < 0.4 else None)
+                if src.type is not None and src.shape is not None and rng.random() < 0.5:
+                    out.type = src.type
+                    out.shape = ir.Shape([d if isinstance(d, int) else rng.randint(1, 4) for d in src.shape])
+                    gen.features.add("bait:identity_refines_shape")
+                n = ir.Node("", "Identity", [src], outputs=[out], name=rng.choice([None, gen.fresh("id")]))
                 g.append(n)
-                if rng.random() < 0.4:
+                if rng.random() < 0.6:
                     g.outputs.append(n.outputs[0])
                 vis.append(n.outputs[0])
+                planted.append(n.outputs[0])
             elif k < 0.6:
                 attrs = [ir.AttrInt64("axis", rng.choice([0, 1]))]
                 a = ir.Node("", "Neg", [src], attrs, outputs=[gen.value()])
@@ -121,6 +224,7 @@ def bait(model: ir.Model, gen: gen_ir.IRGen) -> None:
                 if rng.random() < 0.5:
                     g.outputs.append(c.outputs[0])
                 vis.extend([a.outputs[0], b.outputs[0], c.outputs[0]])
+                planted.append(c.outputs[0])
             elif k < 0.85:
                 form = rng.choice(["value", "value_float", "value_ints", "value_int", "value_floats"])
                 attr = {"value": lambda: ir.AttrTensor("value", ir.tensor(np.array(rng.choice([[1.0, 2.0], [3.0]]), dtype=np.float32))),
@@ -134,6 +238,7 @@ def bait(model: ir.Model, gen: gen_ir.IRGen) -> None:
                 g.append(u)
                 if rng.random() < 0.5:
                     g.outputs.append(u.outputs[0])
+                planted.extend([n.outputs[0], u.outputs[0]])
             else:
                 g.append(ir.Node("", "Relu", [src], outputs=[gen.value()]))  # unused node
         if rng.random() < 0.25:
@@ -152,6 +257,7 @@ def bait(model: ir.Model, gen: gen_ir.IRGen) -> None:
             g.append(n)
             for j in used:
                 g.outputs.append(n.outputs[j])
+                planted.append(n.outputs[j])
         if not is_fn and rng.random() < 0.5:
             arr = np.array(rng.choice([[1, 2, 3], [4, 5]]), dtype=np.int64)
             for _ in range(2):  # duplicate initializers (same bytes), used
@@ -164,6 +270,13 @@ def bait(model: ir.Model, gen: gen_ir.IRGen) -> None:
                     g.inputs.append(v)
         if rng.random() < 0.25 and g.inputs and not is_fn:
             g.outputs.append(rng.choice(list(g.inputs)))  # graph input returned directly (OutputFixPass)
+        # inner scopes below g and names that collide across scopes (rename guards of the passes)
+        if rng.random() < (0.15 if nested_graphs_of(g) else 0.6):
+            sn = plant_scope(g, vis, gen)
+            if rng.random() < 0.3:
+                g.outputs.append(sn.outputs[0])
+        if rng.random() < 0.85:
+            plant_name_clash(g, planted, gen)
     # calls to model functions (InlinePass) and unused opsets
     for f in list(model.functions.values()):
         if rng.random() < 0.7:
@@ -211,6 +324,8 @@ def build(ctx, case):
     model = gen.model()
     gen_ir.uniquify_names(model)
     messy_names = bait(model, gen)
+    for f in sorted(x for x in gen.features if x.startswith("bait:")):
+        ctx.count("models_with_" + f)
     return model, gen, messy_names
 
 
@@ -333,8 +448,17 @@ def add_failing_lazy_initializer(model, big=False):
 def judge_pass(ctx, model, pname, rng, case, fault_kind=None, messy_names=False):
     viol = lambda sig, msg: ctx.violation(sig, msg, {"case": case, "seed": ctx.seed, "pass": pname, "fault": fault_kind})  # noqa: E731
     p = PASS_FACTORIES[pname](rng)
-    if fault_kind is None and pname not in ANALYSIS and rng.random() < 0.15:
-        p = ir.passes.functionalize(p)  # functional variant: must return a DIFFERENT model and leave the input alone
+    variant = "plain"
+    if rng.random() < (0.3 if pname in ANALYSIS else 0.15):
+        # functional variant of EVERY kind of pass (in-place rewriting, in-place side-effect-only such as
+        # the checker, with and without a fault at the ONNX boundary; sometimes wrapped twice): it must
+        # return a DIFFERENT model and leave the input alone
+        ctx.count(f"functionalized:in_place={p.in_place},changes_input={p.changes_input}")
+        p = ir.passes.functionalize(p)
+        variant = "functional"
+        if rng.random() < 0.2:
+            p = ir.passes.functionalize(p)
+            ctx.count("functionalized_twice")
         ctx.count("functionalized_single_passes")
     w = World()
     w.adopt_model(model)
@@ -356,6 +480,10 @@ def judge_pass(ctx, model, pname, rng, case, fault_kind=None, messy_names=False)
         ctx.count("faults_injected")
     analysis_failed = False
     if exc is not None:
+        if _identity_pass_error_in_chain(exc):
+            # the infrastructure's own enforcement noticed that the pass returned the wrong object
+            viol(f"identity|{pname}|{variant}|PassError", f"{variant} {pname} (in_place={p.in_place}): {exc}"[:800])
+            return True
         ctx.count("pass_error:" + pname)
         ctx.count("pass_exc:" + type(exc).__name__)
         analysis_failed = pname in ANALYSIS
@@ -363,6 +491,8 @@ def judge_pass(ctx, model, pname, rng, case, fault_kind=None, messy_names=False)
             return False
     else:
         ctx.count("applied:" + pname)
+        if variant == "functional":
+            ctx.count("applied_functional:" + pname)
     # analysis clause
     if pname == "ShapeInferencePass":
         ctx.count("shape_inference_failed" if boundary.inference_failed() else "shape_inference_succeeded")
@@ -432,7 +562,10 @@ def judge_pass(ctx, model, pname, rng, case, fault_kind=None, messy_names=False)
             rounds += 1
             try:
                 r = p(cur)
-            except Exception:  # noqa: BLE001
+            except Exception as e:  # noqa: BLE001
+                if _identity_pass_error_in_chain(e):
+                    viol(f"identity|{pname}|{variant}|PassError", f"round {rounds + 1} of {variant} {pname}: {e}"[:800])
+                    return True
                 ctx.count("fixpoint_pass_error:" + pname)
                 settled = True
                 break
@@ -461,6 +594,12 @@ def _is_tensor_name_alignment(w, entry) -> bool:
     t = v.const_value
     holders = {o.name for o in w.values if o.const_value is t and o.is_initializer()}
     return a[:3] == b[:3] and a[4:] == b[4:] and b[3] in holders
+
+
+def _same_but_attr_tensor_names(b0, b1) -> bool:
+    from vfpy import c14_protodiff
+
+    return c14_protodiff.without_attr_tensor_names(b0) == c14_protodiff.without_attr_tensor_names(b1)
 
 
 def _first_proto_diff(b0, b1):
@@ -510,6 +649,17 @@ def _is_identity_pass_error(e) -> bool:
     return isinstance(e, ir.passes.PassError) and e.__cause__ is None and "declared" in str(e) and "in-place" in str(e)
 
 
+def _identity_pass_error_in_chain(e) -> bool:
+    """Sequential / PassManager wrap the error of a member pass in a PassError `from` it: the identity
+    enforcement may have fired for a member (e.g. a functionalize()d pass) and sit deeper in the chain."""
+    seen = 0
+    while e is not None and seen < 20:
+        if _is_identity_pass_error(e):
+            return True
+        e, seen = e.__cause__, seen + 1
+    return False
+
+
 def judge_composition(ctx, model, seq, rng, case):
     passes = []
     wrapped = []
@@ -523,6 +673,12 @@ def judge_composition(ctx, model, seq, rng, case):
         else ir.passes.Sequential(*passes)
     name = "+".join(("f(%s)" % n) if n in wrapped else n for n in seq)
     kind = type(comp).__name__ + ("|functional" if wrapped else "")
+    if rng.random() < 0.15:
+        # the composition as a whole made functional (whatever its own in_place / changes_input are)
+        ctx.count(f"functionalized_compositions:in_place={comp.in_place},changes_input={comp.changes_input}")
+        comp = ir.passes.functionalize(comp)
+        name = "f(%s)" % name
+        kind = "functionalize(" + kind.split("|")[0] + ")|functional"
     rep = {"case": case, "seed": ctx.seed}
     cur = model
     any_modified = False
@@ -531,7 +687,7 @@ def judge_composition(ctx, model, seq, rng, case):
         try:
             res = comp(cur)
         except Exception as e:  # noqa: BLE001
-            if _is_identity_pass_error(e) and not any(n in ANALYSIS for n in seq):
+            if _identity_pass_error_in_chain(e):
                 ctx.violation(f"identity|composition|{kind}|PassError", f"round {round_} of {type(comp).__name__}({name}) raised: {e}"[:800], rep)
                 return True
             ctx.count("composition_error")
@@ -545,7 +701,12 @@ def judge_composition(ctx, model, seq, rng, case):
         if not comp.changes_input:
             ctx.count("compositions_not_changing_input_judged")
             b_in, _ = try_ser(cur)
-            if b0 is not None and b_in is not None and b_in != b0:
+            if b0 is not None and b_in is not None and b_in != b0 and _same_but_attr_tensor_names(b0, b_in):
+                # a clone shares its tensors with the original by documented design, and serialising the
+                # copy aligns the own name of a tensor that became an initializer there (allowed, see C03):
+                # seen through a Constant attribute of the input this is not a change of the input MODEL
+                ctx.count("report_only_shared_attr_tensor_renamed_through_copy")
+            elif b0 is not None and b_in is not None and b_in != b0:
                 d = _first_proto_diff(b0, b_in)
                 ctx.violation(f"input-changed|composition|{kind}", f"{name}: changes_input=False but the input model changed: {d[1]}", rep)
                 return True
